@@ -562,7 +562,8 @@ Inductive op :=
 | OpPerturb (p : str) (st : pstate)               (* something happens to an output path *)
 | OpDestroyExt (l : label)                        (* the external condition of a check is destroyed *)
 | OpDropBlob (p : str)                            (* cache fault: the CAS blob holding the bytes that currently sit at the
-                                                     (file) output path p is lost *)
+                                                     output path p is lost (the file's blob; for a directory output its one
+                                                     blob: whichever of the tree or its files the real fault hits) *)
 | OpDropResults                                   (* cache fault: every stored target result is lost (the CAS stays) *)
 | OpBuild (cfg : config) (roots : list nat).
 
@@ -592,7 +593,9 @@ Definition step_op (y : sys) (o : op) : sys :=
       match ws_get p (w_ws (sy_world y)) with
       | PFile content =>
           mkSys (sy_src y) (sy_world y)
-                (mkCache (c_results c) (filter (fun e => negb (str_eqb (H content) (fst e))) (c_cas c)) (c_taint c))
+                (mkCache (c_results c)
+                         (filter (fun e => negb (str_eqb (H content) (fst e) || str_eqb (H ("D"%char :: content)) (fst e))) (c_cas c))
+                         (c_taint c))
                 (sy_log y)
       | _ => y
       end
